@@ -209,7 +209,6 @@ func doReplay(path, repo, verif string) int {
 	return 0
 }
 
-
 // runAllProps analyses the default build variant once and evaluates every registered property on it (used by
 // sweeps; the registered per-property commands run one property per process).
 func runAllProps(tier string, seed int, repo, verif string) int {
